@@ -103,18 +103,23 @@ func VerifC03_CheckTree() {
 	}
 	decodeErr := verifrt.Bool("decodeError")
 	if decodeErr {
+		// like data.NewTreeNodeIterator: a decode error is the last item
 		items = append(items, data.NodeOrError{Error: errors.New("verif: truncated tree")})
-		items = append(items, data.NodeOrError{Node: &data.Node{Name: "after", Type: data.NodeTypeSymlink}})
 	}
+	readToEnd := false
 	tree := func(yield func(data.NodeOrError) bool) {
 		for _, it := range items {
 			if !yield(it) {
 				return
 			}
 		}
+		readToEnd = true
 	}
 
 	errs := c.checkTree(restic.ID{0xee}, tree)
+	// data.StreamTrees collects the subtrees while checkTree iterates and panics ("tree was not read
+	// completely") if the iteration was abandoned: a damaged tree must be reported, not crash the check
+	verifrt.Assert(readToEnd, "checkTree abandoned the tree iterator: StreamTrees panics instead of reporting the damaged tree")
 
 	if good && !decodeErr {
 		verifrt.Reach("tree-clean")
